@@ -58,7 +58,7 @@ def check(run):
         return
     if not validate_spec_setters_on_wpt(run, binp):
         return
-    n = 6000 if run.tier == "quick" else 150000
+    n = 20000 if run.tier == "quick" else 150000
     cases = urlcorr.gen_cases(run.rng, n, hist_frac=1.0)
     # clears are not Standard API setters: keep them out of the Spec comparison histories
     cases = [(i, b, [(op, v) for op, v in ops if op.startswith("set_")], l) for (i, b, ops, l) in cases]
